@@ -1362,7 +1362,7 @@ class C34(Property):
         return None
 
     def cases(self, rng, tier):
-        n = 100 if tier == 'quick' else 2200
+        n = 90 if tier == 'quick' else 1500
         out = []
         forced = [
             ('ifc', {'permute_states': True}),
@@ -1479,10 +1479,14 @@ class C34(Property):
         coloring = None
         d = self._model_dir(case, impl)
         col = impl.get('coloring') if o.get('coloring') else None
-        if col and col.get(d):
+        if col:
+            # a partial coloring is unidirectional: the direction it was computed for is the
+            # direction the component linearizes in
+            dirs = [x for x in ('fwd', 'rev') if col.get(x)]
+            if len(dirs) != 1:
+                return reqs
+            d = dirs[0]
             coloring = {'nz': col['nz'], 'groups': col[d]}
-        elif col:
-            return reqs      # coloring of the other direction only: outside the model
         reqs.append({'op': 'comp', 'kind': case['kind'], 'args': jargs, 'rets': jrets, 'vals': vals,
                      'byName': bool(self.flags['byName']), 'dir': d, 'coloring': coloring,
                      # one return value is returned bare (`return r0`), not as a 1-tuple
